@@ -74,7 +74,8 @@ def c06_roundtrip(table, reg, tier, seed):
     frames = [pd.DataFrame({'a': [1, 2], 'b': ['x', 'y']}), pd.DataFrame(), pd.Series([1.5, 2.5], index=['i', 'j'], name='s'),
               pd.DataFrame({'z': [1.0]}, index=pd.Index([5], name='idx')), pd.DataFrame({0: [1], 'c': [None]}),
               pd.DataFrame({'a': pd.Categorical(['p', 'q'])}), pd.Series([], dtype='float64')]
-    gens = [[], [1], [{'a': 1}, 'x', None, [1, 2]], [' ', 'a b', 'c\u0085'], ['line'] * 3, [{'k': 'ü'}], list(range(12))]
+    gens = [[], [1], [{'a': 1}, 'x', None, [1, 2]], [' ', 'a b', 'c\u0085'], ['line'] * 3, [{'k': 'ü'}], list(range(12)),
+            ['NaN', 'NaNoWriMo', {'NaN': 4, 'k': 'Infinity'}, 'null', '-Infinity', 'true', {'null': None}]]
     lists = [[], [np.arange(3)], [np.array(i) for i in range(12)], [np.zeros((2, 2)), np.array(['a'])], [np.array(5.5)] * 11]
     cases = [('JSONData', v) for v in jvals] + [('NumpyData', a) for a in arrays] + [('PandasData', f) for f in frames] + \
             [('GeneratedData', g) for g in gens] + [('GeneratedDataLazy', g) for g in gens] + [('ListOfNumpyData', l) for l in lists]
@@ -197,6 +198,17 @@ def c17_parallel_map(table, reg, tier, seed):
     violations = []
     tried = 0
     real_as_completed = asyncio.as_completed
+
+    # chunked: every element is kept, None and other falsy ones included
+    from taskchain.utils.iter import chunked as _chunked
+    for xs in ([1, None, 3, 4, 5], [None, None, None, None], [0, '', None, [], False, 7], list(range(7)), [], [None]):
+        for c in (1, 2, 3, 10):
+            tried += 1
+            got = [list(ch) for ch in _chunked(iter(xs), c)]
+            want = [xs[i:i + c] for i in range(0, len(xs), c)]
+            if got != want:
+                violations.append({'obligation': 'C17.standin.chunked', 'kind': 'extra', 'check': 'c17_parallel_map',
+                                   'what': f'chunked({xs!r}, {c}) = {got!r}, expected {want!r}', 'witness': repr((xs, c))})
 
     def run_with_order(order_fn, fun, iterable, **kw):
         def fake_as_completed(futs, *a, **k):
@@ -370,7 +382,8 @@ def c14_caches(table, reg, tier, seed):
         keys = ['', 'a', 'b', 'ab', 'café', 'café', 'k' * 300, ' ', 'a/b', '{"x": 1}', 'A', ' ', '0', 'key\n']
         jvals = [v for v in _json_values(r, 10 if tier == 'quick' else 100)]
         makers = [('json', lambda d: C.JsonCache(d), jvals, _eq),
-                  ('npy', lambda d: C.NumpyArrayCache(d), [np.arange(3), np.array(2.5), np.zeros((2, 2)), np.array(['a', 'b'])], _eq),
+                  ('npy', lambda d: C.NumpyArrayCache(d), [np.arange(3), np.array(2.5), np.zeros((2, 2)), np.array(['a', 'b']),
+                                                            np.array([[1, 2], [3]], dtype=object), np.array([None, 'x', 1.5], dtype=object)], _eq),
                   ('pd', lambda d: C.DataFrameCache(d), [pd.DataFrame({'a': [1, 2]}), pd.DataFrame()], _eq)]
         for name, mk, vals, eq in makers:
             cache = mk(tmp / name)
@@ -598,6 +611,27 @@ class K:
             k.other(**binding)
             if len(k.calls) != before + 1:
                 viol('methods', 'two methods of one object shared a cache entry', (sig, binding))
+    # call history: a non-default argument of an earlier call must not leak into a later call that omits it (every decorator form)
+    for deco in ({}, {'version': 'v'}):
+        K = make('a, b=10, c=None, d=20', **deco)
+        k = K()
+        tried += 3
+        r1 = k.m(3, b=99)
+        r2 = k.m(3)
+        r3 = k.m(3, b=10)
+        if r1 != (3, 99, None, 20) or r2 != (3, 10, None, 20) or r3 != r2 or len(k.calls) != 2:
+            viol('history', f'after m(3, b=99) the call m(3) returned {r2!r} ({len(k.calls)} executions for 2 bindings): arguments of an earlier call leaked into a later one',
+                 ('m(3, b=99); m(3); m(3, b=10)', deco))
+    # only_cache only looks up: a miss creates no entry and the next ordinary call computes
+    K = make('a, b=1, c=2, d=3')
+    k = K()
+    tried += 3
+    miss = k.m(7, only_cache=True)
+    n_entries = sum(len(sc) for sc in [k.cache.subcache(n) for n in list(k.cache._subcaches[__import__('threading').get_ident()])]) if hasattr(k.cache, '_subcaches') else 0
+    val = k.m(7)
+    if val != (7, 1, 2, 3) or len(k.calls) != 1 or n_entries != 0:
+        viol('only_cache_miss', f'm(7, only_cache=True) on an empty cache returned {miss!r}, left {n_entries} entries; the following m(7) returned {val!r} after {len(k.calls)} executions',
+             'only_cache miss then call')
     # ignored arguments, versions, control keywords
     K = make('a, b=1, c=2, d=3', ignore_kwargs=['d'])
     k = K()
